@@ -440,6 +440,24 @@ def txt(ctx: Any) -> List[Ob]:
     seps = [n for n in walk_local_ordered(w.node) if isinstance(n, ast.Constant) and n.value == b'=']
     none_guard = [n for n in walk_local_ordered(w.node) if isinstance(n, ast.If) and isinstance(n.test, ast.Compare) and isinstance(n.test.ops[0], ast.IsNot) and isinstance(n.test.comparators[0], ast.Constant) and n.test.comparators[0].value is None and any(isinstance(x, ast.Constant) and x.value == b'=' for x in ast.walk(n))]
     obs.append(ob(R, w, "record += b'=' + value", 'writer separates key and value with `=` only when a value is present', len(seps) == 1 and len(none_guard) == 1))
+    # the caller's dict may be kept as the decoded properties only if nothing in it had to be converted to bytes
+    me_w = w.params[0]
+    reuse = [n for n in walk_local_ordered(w.node) if isinstance(n, ast.Assign) and self_attr(n.targets[0], me_w) == '_properties' and norm(n.value) == w.params[1]]
+    cfgw = cfg_of(w.node)
+    if reuse:
+        rnode = next(n for n in cfgw.nodes if n.ast is reuse[0])
+        guards = [t for t in cfgw.nodes if t.kind == 'test' and cfgw.dominates(t, rnode) and isinstance(t.ast, ast.UnaryOp) and isinstance(t.ast.op, ast.Not) and isinstance(t.ast.operand, ast.Name)]
+        flag = guards[0].ast.operand.id if guards else None
+        convs = [n for n in cfgw.nodes if n.kind == 'stmt' and isinstance(n.ast, ast.Assign) and isinstance(n.ast.targets[0], ast.Name) and any(isinstance(c, ast.Call) and call_name(c) == 'encode' for c in ast.walk(n.ast.value))]
+        sets = [n for n in cfgw.nodes if n.kind == 'stmt' and isinstance(n.ast, ast.Assign) and flag is not None and norm(n.ast.targets[0]) == flag and norm(n.ast.value) == 'True']
+        good = flag is not None and bool(convs)
+        missing = []
+        for cv in convs:
+            # every path from a conversion to the end of the loop iteration sets the flag
+            w_ = cfgw.path_avoiding(cv, lambda n: n.kind == 'for' or n is cfgw.exit, lambda n: n in sets)
+            if w_ is not None:
+                missing.append(norm(cv.ast)[:60])
+        obs.append(ob(R, w, reuse[0], 'the caller\'s dictionary is reused as the decoded properties only when no key or value had to be converted to bytes (every conversion marks the dictionary as not reusable)', good and not missing, f'conversion without marking: {missing}' if missing else ('' if good else 'no not-<flag> guard on the reuse')))
     # reader
     parts = [c for c in walk_local_ordered(r.node) if isinstance(c, ast.Call) and call_name(c) in ('partition', 'split') and c.args and isinstance(c.args[0], ast.Constant)]
     obs.append(ob(R, r, parts[0] if parts else 'partition', 'reader splits each item at the first `=`', len(parts) == 1 and parts[0].args[0].value == b'=' and call_name(parts[0]) == 'partition'))
